@@ -40,12 +40,14 @@ T = {
  "C09-xcdr1-origin-taken-before-header": ("C09", "XCDR1 serialize_mmember records the position to resume the enclosing alignment before the 4-byte parameter header instead of after it", "XCDR1, a parameter-list member (@optional, nested mutable) followed by an 8-byte aligned member in the enclosing object", ["C10"]),
  "C10-xcdr1-origin-not-restored-for-absent-optional": ("C10", "XCDR1 alignment origin is restored only when the optional member is present", "XCDR1, final/appendable struct with an absent @optional member at an offset = 0 mod 8, followed by an 8-byte aligned member", ["C09"]),
  "C11-alive-sample-key-from-key-holder": ("C11", "when a received change has no key hash the key of an ALIVE sample is deserialized from the front of the payload as if it were the key holder", "no key hash in the message (fragmented sample, foreign writer) and key members that are not the leading members of the type", []),
- "C12-max-key-size-array-padding-per-element": ("C12", "maximum serialized key size of array / bounded sequence key members charges the first element's alignment padding once per element", "a misaligned array key member of > 1 elements whose true maximum key size is <= 16 but whose over-estimate exceeds 16", ["C11"]),
+ "C12-max-key-size-array-padding-per-element": ("C12", "maximum serialized key size of array / bounded sequence key members charges the first element's alignment padding once per element", "a misaligned array key member of > 1 elements whose true maximum key size is <= 16 but whose over-estimate exceeds 16", []),
  "C39-xcdr2-mutable-lookup-order-dependent": ("C39", "XCDR2 mutable member lookup continues from the previously found member instead of the object start", "XCDR2 mutable types whose common members are in a different relative order on writer and reader side", []),
  "C40-auto-id-counter-monotone": ("C40", "derive(DdsType): the automatic member id counter of a mutable struct never decreases", "explicit ids in non-ascending order followed by members without id", []),
  "C41-optional-honoured-only-as-last-annotation": ("C41", "IDL compiler: @optional only takes effect when it is the member's last annotation", "a member with @optional followed by another annotation (e.g. @optional @id(3))", []),
 }
 NOTES = {
+ "C11-alive-sample-key-from-key-holder": "initially MISSED (the check compared handles in-process only; C01/C05 use a key-first type): the end-to-end half (keyident.rs) was added, after which it is caught",
+ "C07-inline-qos-offset-checked-against-datagram": "caught by C07 at once; C06 initially MISSED it (its octetsToInlineQos class had no trailing submessage): class extended, after which C06 catches it too",
  "C27-ack-watermark-max": "initially MISSED by the C27 check (single reader); the scenario got a healthy-second-reader variant, after which it is caught",
  "C33-data-on-readers-once-per-pass": "initially MISSED: the scenario had no two readers under one subscriber; a sibling reader under the same subscriber was added, after which it is caught",
  "C42-sleep-registers-first-waker-only": "initially MISSED: no workload re-polled a Sleep with another waker or used reset(); case_repoll was added, after which it is caught",
